@@ -383,6 +383,170 @@ theorem tinv_reach (B : Obj σ O R) (x0 : σ) (progs : List (List O)) {c : Cfg (
     (hr : Reach (tsSys B) (Sh.start x0, progs.map Th.start) c) : TInv B x0 c :=
   inv_induction (TInv B x0) (tinv_init B x0 progs) (fun _ _ h hs => tinv_step h hs) hr
 
+/-! ### every log entry belongs to exactly one call -/
+
+/-- the linearization stamp a call in progress has already taken -/
+def pcStamps : Pc σ O R → List Nat
+  | .wOut _ _ _ lin => [lin]
+  | .rBody _ _ _ lin => [lin]
+  | .rOut _ _ _ lin => [lin]
+  | _ => []
+
+/-- the stamps of the calls of one goroutine that have passed their linearization point (in progress + completed) -/
+def thStamps (t : Th σ O R) : List Nat := pcStamps t.pc ++ t.rets.map (·.lin)
+
+def claimed (ts : List (Th σ O R)) : List Nat := (ts.map thStamps).flatten
+
+theorem claimed_mid (pre post : List (Th σ O R)) (t : Th σ O R) :
+    claimed (pre ++ t :: post) = claimed pre ++ (thStamps t ++ claimed post) := by
+  simp [claimed]
+
+theorem claimed_same {pre post : List (Th σ O R)} {t t' : Th σ O R} {L L' : List Nat}
+    (h : (claimed (pre ++ t :: post)).Perm L) (ht : thStamps t' = thStamps t) (hL : L' = L) :
+    (claimed (pre ++ t' :: post)).Perm L' := by
+  rw [claimed_mid, ht, ← claimed_mid, hL]; exact h
+
+theorem claimed_new {pre post : List (Th σ O R)} {t t' : Th σ O R} {L L' : List Nat} {k : Nat}
+    (h : (claimed (pre ++ t :: post)).Perm L) (ht : thStamps t' = k :: thStamps t) (hL : L' = L ++ [k]) :
+    (claimed (pre ++ t' :: post)).Perm L' := by
+  rw [claimed_mid] at h ⊢
+  rw [ht, hL]
+  have h1 : (claimed pre ++ (k :: thStamps t ++ claimed post)).Perm (k :: (claimed pre ++ (thStamps t ++ claimed post))) := by
+    simp
+  exact h1.trans ((List.Perm.cons k h).trans (List.perm_append_singleton k L).symm)
+
+/-- **The calls that have passed their linearization point are exactly the log entries, each once**: the stamps held
+by the goroutines (calls in progress past that point, and completed calls) are a permutation of the stamps of the log. -/
+theorem stamps_step {B : Obj σ O R} {a b : Cfg (Sh σ O R) (Th σ O R)}
+    (hi : (claimed a.2).Perm (a.1.log.map (·.stamp))) (hs : Step (tsSys B) a b) :
+    (claimed b.2).Perm (b.1.log.map (·.stamp)) := by
+  obtain ⟨s, pre, t, post, s', t', hmem⟩ := hs
+  obtain ⟨pc, todo, rets⟩ := t
+  simp only [tsSys] at hmem
+  simp only [] at hi ⊢
+  cases pc with
+  | idle =>
+    cases todo with
+    | nil => simp [tsStep] at hmem
+    | cons op rest =>
+      simp only [tsStep] at hmem
+      cases hk : B.kind op with
+      | w =>
+        simp only [hk, List.mem_singleton, Prod.mk.injEq] at hmem
+        obtain ⟨rfl, rfl⟩ := hmem
+        exact claimed_same hi rfl rfl
+      | r =>
+        simp only [hk] at hmem
+        split at hmem
+        · simp at hmem
+        · simp only [List.mem_singleton, Prod.mk.injEq] at hmem
+          obtain ⟨rfl, rfl⟩ := hmem
+          exact claimed_same hi rfl rfl
+  | wWait op inv =>
+    simp only [tsStep] at hmem
+    split at hmem
+    · simp only [List.mem_singleton, Prod.mk.injEq] at hmem
+      obtain ⟨rfl, rfl⟩ := hmem
+      exact claimed_same hi rfl rfl
+    · simp at hmem
+  | wIn op inv =>
+    simp only [tsStep, List.mem_singleton, Prod.mk.injEq] at hmem
+    obtain ⟨rfl, rfl⟩ := hmem
+    exact claimed_same hi rfl rfl
+  | wBody op inv x =>
+    simp only [tsStep, List.mem_singleton, Prod.mk.injEq] at hmem
+    obtain ⟨rfl, rfl⟩ := hmem
+    exact claimed_new hi rfl (by simp [tick])
+  | wOut op inv res lin =>
+    simp only [tsStep, List.mem_singleton, Prod.mk.injEq] at hmem
+    obtain ⟨rfl, rfl⟩ := hmem
+    exact claimed_same hi (by simp [thStamps, pcStamps]) rfl
+  | rIn op inv =>
+    simp only [tsStep, List.mem_singleton, Prod.mk.injEq] at hmem
+    obtain ⟨rfl, rfl⟩ := hmem
+    exact claimed_new hi rfl (by simp [tick])
+  | rBody op inv x lin =>
+    simp only [tsStep, List.mem_singleton, Prod.mk.injEq] at hmem
+    obtain ⟨rfl, rfl⟩ := hmem
+    exact claimed_same hi rfl rfl
+  | rOut op inv res lin =>
+    simp only [tsStep, List.mem_singleton, Prod.mk.injEq] at hmem
+    obtain ⟨rfl, rfl⟩ := hmem
+    exact claimed_same hi (by simp [thStamps, pcStamps]) rfl
+
+theorem stamps_reach (B : Obj σ O R) (x0 : σ) (progs : List (List O)) {c : Cfg (Sh σ O R) (Th σ O R)}
+    (hr : Reach (tsSys B) (Sh.start x0, progs.map Th.start) c) : (claimed c.2).Perm (c.1.log.map (·.stamp)) := by
+  refine inv_induction (S := tsSys B) (fun c => (claimed c.2).Perm (c.1.log.map (·.stamp))) ?_
+    (fun _ _ h hs => stamps_step h hs) hr
+  have : ∀ l : List (List O), claimed (l.map (Th.start (σ := σ) (R := R))) = [] := by
+    intro l; induction l with
+    | nil => rfl
+    | cons a r ih => simp [claimed, Th.start, thStamps, pcStamps] at ih ⊢
+  simp [this, Sh.start]
+
+theorem nodup_of_sorted {l : List Nat} (h : l.Pairwise (· < ·)) : l.Nodup :=
+  h.imp (fun hab => Nat.ne_of_lt hab)
+
+/-! ### no reachable configuration is stuck -/
+
+/-- a goroutine that has returned from its last call -/
+def finished (t : Th σ O R) : Prop :=
+  match t.pc, t.todo with
+  | .idle, [] => True
+  | _, _ => False
+
+/-- a goroutine inside a section can always take its next step -/
+theorem inside_steps (B : Obj σ O R) (s : Sh σ O R) (t : Th σ O R) (h : inW t.pc = true ∨ inR t.pc = true) :
+    tsStep B s t ≠ [] := by
+  obtain ⟨pc, todo, rets⟩ := t
+  cases pc <;> simp [inW, inR] at h <;> simp [tsStep]
+
+/-- **The wrapper cannot block itself**: in every configuration satisfying the invariant (hence in every reachable one)
+either every goroutine has finished or some goroutine can take a step — a goroutine inside a section always can; if
+nobody is inside, the mutex is free and whoever waits for it (or is about to call) gets it. -/
+theorem ts_not_stuck {B : Obj σ O R} {x0 : σ} {c : Cfg (Sh σ O R) (Th σ O R)} (hi : TInv B x0 c) :
+    ¬ Deadlock (tsSys B) finished c := by
+  rintro ⟨hstuck, t, ht, hnf⟩
+  have hout : ∀ u ∈ c.2, inW u.pc = false ∧ inR u.pc = false := by
+    intro u hu
+    have hs := hstuck u hu
+    constructor
+    · cases h : inW u.pc with
+      | false => rfl
+      | true => exact absurd hs (inside_steps B c.1 u (Or.inl h))
+    · cases h : inR u.pc with
+      | false => rfl
+      | true => exact absurd hs (inside_steps B c.1 u (Or.inr h))
+  have hW0 : c.2.countP (fun t => inW t.pc) = 0 := List.countP_eq_zero.2 (fun u hu => by simp [(hout u hu).1])
+  have hR0 : c.2.countP (fun t => inR t.pc) = 0 := List.countP_eq_zero.2 (fun u hu => by simp [(hout u hu).2])
+  have hw : c.1.rw.writer = false := by
+    have := hi.exclW
+    rw [hW0] at this
+    cases h : c.1.rw.writer with
+    | false => rfl
+    | true => rw [h] at this; simp at this
+  have hr : c.1.rw.readers = 0 := by rw [hi.cntR, hR0]
+  have hs := hstuck t ht
+  obtain ⟨pc, todo, rets⟩ := t
+  have ho := hout _ ht
+  simp only [tsSys] at hs
+  cases pc with
+  | idle =>
+    cases todo with
+    | nil => exact hnf (by simp [finished])
+    | cons op rest =>
+      simp only [tsStep] at hs
+      cases hk : B.kind op with
+      | w => simp [hk] at hs
+      | r => simp [hk, hw] at hs
+  | wWait op inv => simp [tsStep, hw, hr] at hs
+  | wIn op inv => simp [inW] at ho
+  | wBody op inv x => simp [inW] at ho
+  | wOut op inv res lin => simp [inW] at ho
+  | rIn op inv => simp [inR] at ho
+  | rBody op inv x lin => simp [inR] at ho
+  | rOut op inv res lin => simp [inR] at ho
+
 theorem mem_snoc_left {α : Type} {l : List α} {x y : α} (h : x ∈ l) : x ∈ l ++ [y] := List.mem_append_left _ h
 
 end TS
